@@ -6,15 +6,17 @@ use simcore::seams::{ev, InputMode, Log, RlMode, SimInput, SimOutput};
 use simcore::serde_tok::{Pres, SerdeFault, Tok, PRESENTATIONS, SERDE_FAULTS};
 use simcore::trace::{Fault, Reader, Record, SerdeOp, Shape, Trace, Writer};
 use std::panic::{catch_unwind, AssertUnwindSafe};
-use std::sync::atomic::{AtomicBool, Ordering};
+use std::sync::atomic::{AtomicBool, AtomicU8, Ordering};
 
 /// Skip the serde ops of every history (used to compare event digests with a build of
 /// substrate-fixed that has no serde feature).
 pub static CODEC_ONLY: AtomicBool = AtomicBool::new(false);
-/// Lean mode for the interpreter (Miri) probe: only the codec calls and their oracles
-/// (E1, E3, D1-D6); the byte-view algebra, metadata and size checks are skipped because an
-/// interpreter executes them thousands of times slower and they contain no `unsafe` path.
-pub static LEAN: AtomicBool = AtomicBool::new(false);
+/// Lean levels for the interpreter (Miri) probe. 0: everything. 2: only the codec calls and their oracles
+/// (E1, E3, D1-D7) — the byte-view algebra, metadata and size checks are skipped because an interpreter
+/// executes them thousands of times slower and they contain no `unsafe` path. 1 (cross-target runs): as
+/// 2 plus the size (E2) and byte-view (B1) oracles, which are the ones that can depend on the target's
+/// endianness and pointer width; metadata, EncodeLike and serde stay off.
+pub static LEAN: AtomicU8 = AtomicU8::new(0);
 /// Alarm-path self-test: the reference model is deliberately wrong (big-endian payload), so that the
 /// unchanged tree "violates" E1 and the whole detect / minimise / persist / replay path can be exercised
 /// without touching /repo. Only ever set in a child process whose output is captured.
@@ -248,7 +250,8 @@ pub fn write_phase(table: &[Ops], t: &Trace, record: bool) -> Result<Written, Vi
             }
             _ => return Err(viol("E3", i, &f0, "integer twin failed to encode (harness reference broke)".into())),
         }
-        if LEAN.load(Ordering::Relaxed) {
+        let lean = LEAN.load(Ordering::Relaxed);
+        if lean >= 2 {
             log.ev(ev::CHECK_OK, check_no("E1"), i as u64);
             log.ev(ev::CHECK_OK, check_no("E3"), i as u64);
             spans.push((start, end));
@@ -306,6 +309,10 @@ pub fn write_phase(table: &[Ops], t: &Trace, record: bool) -> Result<Written, Vi
         if !r.vals.is_empty() {
             log.ev(ev::CHECK_OK, check_no("B1"), i as u64);
         }
+        if lean == 1 {
+            spans.push((start, end));
+            continue;
+        }
         // L1: declared EncodeLike relations with primitive integers store bytes the slot type can read
         if let Some(v0) = r.vals.first() {
             match catch_unwind(|| (ops.el_check)(*v0)) {
@@ -328,7 +335,7 @@ pub fn write_phase(table: &[Ops], t: &Trace, record: bool) -> Result<Written, Vi
         }
         spans.push((start, end));
     }
-    if simcore::serde_tok::SERDE_ON && !CODEC_ONLY.load(Ordering::Relaxed) {
+    if simcore::serde_tok::SERDE_ON && !CODEC_ONLY.load(Ordering::Relaxed) && LEAN.load(Ordering::Relaxed) == 0 {
         for (k, o) in t.serde.iter().enumerate() {
             serde_op(table, o, k, &mut log)?;
         }
